@@ -347,6 +347,56 @@ def fold_dropped(fn):
     return out
 
 
+def assert_falls(m, fn, qn):
+    """[(node, message)]: an assert_* method that returns early when `equals(...)` holds must raise on every other path: the code
+    after the shortcut cannot fall off the end (it would return silently although equals() said the objects differ)."""
+    from . import lib_kind3
+    out = []
+    if not qn.split(".")[-1].startswith("assert_"):
+        return out
+    for i, s_ in enumerate(fn.body):
+        if isinstance(s_, ast.If) and any(isinstance(c, ast.Call) and isinstance(c.func, ast.Attribute) and c.func.attr == "equals" for c in ast.walk(s_.test)) \
+                and s_.body and isinstance(s_.body[0], ast.Return):
+            rest = fn.body[i + 1:]
+            if lib_kind3._falls(rest, lib_kind3._noreturn(m)):
+                out.append((rest[-1] if rest else s_, "after `if %s: return` the rest of %s can fall off its end: it returns silently "
+                            "although equals() reported a difference" % (ast.unparse(s_.test)[:40], qn.split(".")[-1])))
+    return out
+
+
+_ALLOC_CALLS = ("np.full", "np.zeros", "np.empty", "np.ones", "np.full_like", "np.zeros_like", "list", "dict", "bytearray")
+
+
+def stale_buffer(fn):
+    """[(node, message)]: a scratch buffer allocated before a loop, filled through subscripts inside it, and re-allocated inside
+    the loop only under a condition: in the iterations where the condition is false the slots that this iteration does not
+    write keep what an earlier iteration left there."""
+    out = []
+
+    def is_alloc(v):
+        return (isinstance(v, ast.Call) and ast.unparse(v.func) in _ALLOC_CALLS) or isinstance(v, (ast.List, ast.Dict))
+    for blk in ast.walk(fn):
+        body = getattr(blk, "body", None)
+        if not isinstance(body, list):
+            continue
+        for i, lp in enumerate(body):
+            if not isinstance(lp, (ast.For, ast.While)):
+                continue
+            before = {t.id for s_ in body[:i] if isinstance(s_, ast.Assign) and is_alloc(s_.value) for t in s_.targets if isinstance(t, ast.Name)}
+            for nm in sorted(before):
+                uncond = any(isinstance(s_, ast.Assign) and is_alloc(s_.value) and any(isinstance(t, ast.Name) and t.id == nm for t in s_.targets)
+                             for s_ in lp.body)
+                cond = [s_ for top in lp.body if isinstance(top, ast.If) for s_ in ast.walk(top)
+                        if isinstance(s_, ast.Assign) and is_alloc(s_.value) and any(isinstance(t, ast.Name) and t.id == nm for t in s_.targets)]
+                stores = [s_ for s_ in ast.walk(lp) if isinstance(s_, (ast.Assign, ast.AugAssign))
+                          and any(isinstance(t, ast.Subscript) and isinstance(t.value, ast.Name) and t.value.id == nm
+                                  for t in (s_.targets if isinstance(s_, ast.Assign) else [s_.target]))]
+                if cond and not uncond and stores:
+                    out.append((cond[0], "`%s` is allocated before the loop and re-allocated inside it only under a condition, while the "
+                                "loop writes into it slot by slot: slots not written in an iteration keep an earlier iteration's value" % nm))
+    return out
+
+
 _UINT = re.compile(r"uint(8|16|32|64)|size_t_dtype")
 
 
@@ -397,6 +447,8 @@ def function_lints(m, qn, fn):
     out += [("alloc-domain", n, msg) for n, msg in alloc_domain(fn)]
     out += [("fold-dropped", n, msg) for n, msg in fold_dropped(fn)]
     out += [("uint-arith", n, msg) for n, msg in uint_arith(fn)]
+    out += [("stale-buffer", n, msg) for n, msg in stale_buffer(fn)]
+    out += [("assert-falls", n, msg) for n, msg in assert_falls(m, fn, qn)]
     return out
 
 
